@@ -30,7 +30,7 @@ package soc
 //@   ensures result == chunkAddr(ref(self))
 //@   assigns nothing
 //@ extern func github.com/gauss-project/aurorafs/pkg/boson.NewChunk
-//@   ensures result != nil && chunkAddr(ref(result)) == address && chunkData(ref(result)) == seq(data) && chunkLen(ref(result)) == len(data)
+//@   ensures result != nil && chunkAddr(ref(result)) == addr && chunkData(ref(result)) == seq(data) && chunkLen(ref(result)) == len(data)
 //@   assigns nothing
 //@ # content-addressed chunk over (span ++ data): its payload is exactly the given bytes and its
 //@ # address a function of them (proved in pkg/cac, C04)
